@@ -128,3 +128,8 @@ claim("C17", "fault enumeration by runtime monitoring: two real TLSStream endpoi
       "Held on every executed session: cut offsets enumerated over the whole ciphertext of both directions (every offset in thorough, every 2nd in quick) x TLS 1.2/1.3 x standard_compatible on/off, chunk policies (1-byte, random, coalescing), seeded larger sessions (0 B .. 40 KB messages, both directions busy) with random cuts.",
       "OpenSSL via ssl, trustme certificates; the Wire delivers in order and a cut drops everything after the offset",
       "DESIGN.md 5/C17")
+
+claim("C18", "runtime monitor on real sockets: position-dependent byte-stream oracle, chunk-size bounds, in-flight-bytes bound sampled while the reader is stalled (SO_SNDBUF/SO_RCVBUF pinned), EOF / closed-stream / busy-direction probes",
+      "Held on every executed session: TCP loopback and UNIX sockets on asyncio and uvloop, both role assignments (accepted side reading / connecting side reading), message sizes 1 B..256 KiB and 1-2 MiB stall sessions, reader stalls before the first receive and mid-stream, full duplex, EOF by send_eof and aclose.",
+      "Linux loopback/AF_UNIX semantics; real time: sessions without completion inside the watchdog are inconclusive",
+      "DESIGN.md 5/C18")
